@@ -143,7 +143,9 @@ def mutate_attr(
     # as default factories), remember the current state of `obj` so that a
     # failure does not leave it half-updated. (Copies are simply discarded.)
     will_invalidate = bool(
-        not skip_invalidation and metadata and metadata.invalidation_map
+        not skip_invalidation
+        and metadata
+        and metadata.invalidation_map_for(type(obj))
     )
     live = inplace or bool(metadata and metadata.do_not_copy)
     saved_state = dict(obj.__dict__) if live and will_invalidate else None
@@ -169,7 +171,7 @@ def mutate_attr(
     # Invalidate any caches depending on this attribute
     if will_invalidate:
         try:
-            invalidate_attrs(obj, attr, metadata.invalidation_map)
+            invalidate_attrs(obj, attr, metadata.invalidation_map_for(type(obj)))
         except BaseException:
             if saved_state is not None:
                 obj.__dict__.clear()
@@ -186,7 +188,7 @@ def invalidate_attrs(
     _seen: Optional[Set[str]] = None,
 ):
     if invalidation_map is None:
-        invalidation_map = obj.__spec_class__.invalidation_map
+        invalidation_map = obj.__spec_class__.invalidation_map_for(type(obj))
     if not invalidation_map:
         return
 
